@@ -25,8 +25,14 @@ Record ucase := UC {
                                       was then normalised without a parent) *)
   c_outs : list obs;               (* NormalizeURL + String() on fresh objects *)
   c_again : option obs;            (* the first output normalised once more (no parent) *)
-  c_nofrag : option (bytes * obs)  (* when the text has a '#' after a non-empty prefix: that prefix
+  c_nofrag : option (bytes * obs); (* when the text has a '#' after a non-empty prefix: that prefix
                                       and what it is normalised to (same parent) *)
+  (* three views of one evaluation: String(), Raw, GetParsed().String() after String() (the last
+     two empty when rejected).  First entry: a fresh object (= the first of c_outs); second entry,
+     when c_state is not 0: the same text on an object that was already parsed (1: URL.Parse() on
+     the raw text, as the sources do for every seed) or parsed and stringed (2) before *)
+  c_states : list (obs * bytes * bytes);
+  c_state : N
 }.
 
 Definition obs_eqb (a c : obs) : bool :=
@@ -67,6 +73,15 @@ Definition diff_case (c : ucase) : bool :=
     let ps := match pr with None => None | Some p => state_of (norm_state gs p) end in
     let pg := gg && match pr with None => true | Some p => in_grammar gs p end in
     negb text_ok ||
+    (* Raw is the state NormalizeURL leaves behind, the parsed URL after String() is the canonical one *)
+    (pg && in_grammar ps r &&
+     (* that evaluation ran with a parent and grandparent whose String() had been called *)
+     let psf := match pr with None => None | Some p => state_of (norm_state (option_map finish gs) p) end in
+     match c_states c, norm_state (option_map finish psf) r with
+     | (_, raw, parsed) :: _, Ok w =>
+       negb (bytes_eqb raw (render_url w) && bytes_eqb parsed (render_url (finish w)))
+     | _, _ => false
+     end) ||
     (pg && (negb (obytes_eqb (option_map (fun s => render_url (finish s)) ps) (c_pcanon c))
             || (in_grammar ps r
                 && negb (forallb (obs_eqb (obs_of (normalize ps r))) (c_outs c)
@@ -166,6 +181,39 @@ Definition mon_scheme_rel (c : ucase) : bool :=
   | _, _ => true
   end.
 
+(* 8: the answer is a function of the text and the parent, not of the history of the URL object
+   (norm_deterministic): an object that was parsed before gives the same String(), Raw and parsed
+   URL as a fresh one, and in every evaluation String() is the text of the parsed URL.  For an
+   object whose String() was ALSO called before, this monitor looks at the outcome class and Raw,
+   monitor 9 at the rest. *)
+Definition trip_eqb (a b : obs * bytes * bytes) : bool :=
+  let '(o1, r1, p1) := a in let '(o2, r2, p2) := b in
+  obs_eqb o1 o2 && bytes_eqb r1 r2 && bytes_eqb p1 p2.
+Definition trip_coherent (a : obs * bytes * bytes) : bool :=
+  let '(o, _, p) := a in match o with OOk t => bytes_eqb t p | _ => true end.
+Definition same_class (a b : obs) : bool :=
+  match a, b with OOk _, OOk _ => true | _, _ => obs_eqb a b end.
+Definition mon_state (c : ucase) : bool :=
+  match c_states c with
+  | f :: r =>
+    trip_coherent f &&
+    match r with
+    | s :: _ =>
+      if (c_state c =? 1)%N then trip_eqb f s && trip_coherent s
+      else same_class (fst (fst f)) (fst (fst s)) && bytes_eqb (snd (fst f)) (snd (fst s))
+    | [] => true
+    end
+  | [] => true
+  end.
+
+(* 9: ... also when String() had been called on the object before normalisation *)
+Definition mon_string_cache (c : ucase) : bool :=
+  match c_states c with
+  | f :: s :: _ => if (c_state c =? 2)%N then trip_eqb f s else true
+  | _ => true
+  end.
+
 Definition diffs (l : list ucase) := bad_idx diff_case l.
 Definition mons (l : list ucase) :=
-  mon_idx [mon_same; mon_idem; mon_shape; mon_query; mon_authority; mon_directory; mon_fragment; mon_scheme_rel] l.
+  mon_idx [mon_same; mon_idem; mon_shape; mon_query; mon_authority; mon_directory; mon_fragment; mon_scheme_rel;
+           mon_state; mon_string_cache] l.
